@@ -145,6 +145,12 @@ loop:
 				a.last = c
 				break loop
 			}
+			// The name becomes one path component below the target directory. Anything
+			// but a single real component could address objects outside of it (or the
+			// current directory itself).
+			if d.Name == "" || d.Name == "." || d.Name == ".." || strings.Contains(d.Name, "/") {
+				return nil, InvalidFormat{fmt.Sprintf("invalid filename '%s'", d.Name)}
+			}
 			name = d.Name
 		case FormatGoodbye: // This will effectively be a "cd .."
 			if entry != nil {
